@@ -102,6 +102,8 @@ BadAlerts(kind) ==
     [] kind = "pha-bad-cv"        -> {51, 47}
     [] kind = "pha-bad-fin"       -> {51}
     [] kind = "pha-ctx-reuse"     -> {47, 10}
+    \* a request the client answered with an empty Certificate is answered, too: its context is used up
+    [] kind = "pha-ctx-reuse-declined" -> {47, 10}
     [] kind = "ku-in-tls12"       -> {10}
     [] kind = "hreq13"            -> {10}
     [] OTHER -> {}
